@@ -81,7 +81,8 @@ def run_index(prop, seed, idx, profile, minimise=True):
     ex, case, execs = props.execute_search(case)
     case.setdefault("seed", seed)
     case.setdefault("index", idx)
-    res = {"idx": idx, "digest": ex.digest, "stats": ex.stats, "violation": None,
+    res = {"idx": idx, "digest": ex.digest, "out_digest": ex.out_digest, "stats": ex.stats,
+           "violation": None,
            "nops": len(case["ops"]), "batch": profile.get("batch"), "execs": execs}
     res["shape"] = hashlib.sha256(json.dumps(
         [[o["k"], o.get("m"), bool(o.get("dialect"))] for o in case["ops"]]).encode()).hexdigest()[:12]
@@ -116,6 +117,42 @@ def run_index(prop, seed, idx, profile, minimise=True):
                               "nclasses": sum(len(ch) for ch in case["spec"]["chunks"])}
         res["violation"] = {"class": mvio["class"], "record": rec, "replay": replay}
     return res
+
+
+def outcomes_of_case(case):
+    """all normalised outcomes of a stored case (for dirty-vs-fresh comparison)"""
+    from . import props
+    ex = props.EXECUTORS[case["prop"]](case)
+    ex.keep_outcomes = True
+    ex.run()
+    return {"out_digest": ex.out_digest, "outcomes": ex.full_outcomes,
+            "violation": ex.violation["class"] if ex.violation else None}
+
+
+def probe_task(prop, seed, idx, profile):
+    """one run, alone, in a fresh process"""
+    r = run_index(prop, seed, idx, profile, minimise=False)
+    return {"idx": idx, "out_digest": r["out_digest"],
+            "violation": r["violation"]["class"] if r["violation"] else None}
+
+
+def chain_task(prop, seed, first, victim, profile):
+    """run `first`, then `victim`, in one fresh process; report the victim"""
+    from . import props
+    cases = []
+    for idx in (first, victim):
+        rng = random.Random(run_seed(prop, seed, idx))
+        case = props.gen_case(prop, rng, profile)
+        case["opts"] = {k: v for k, v in (case.get("opts") or {}).items() if k != "enum"}
+        case["seed"], case["index"] = seed, idx
+        cases.append(case)
+    outcomes_of_case(cases[0])
+    dirty = outcomes_of_case(cases[1])
+    return {"first": first, "victim": victim, "dirty": dirty, "cases": cases}
+
+
+def fresh_outcomes_task(case):
+    return outcomes_of_case(case)
 
 
 def describe_op(o):
@@ -290,6 +327,8 @@ def replay(prop, path):
     from . import props
     with open(path) as f:
         case = json.load(f)
+    if case.get("kind") == "chain":
+        return replay_chain(prop, case, path)
     want = case.get("violation") or {}
     v = props.run_case(case)
     if v is None:
@@ -304,6 +343,41 @@ def replay(prop, path):
                       "diff_at": v.get("diff_at")}, indent=1)[:4000])
     print(f"VIOLATION property={prop} replay={path}")
     return 1 if same_class else 2
+
+
+def first_outcome_diff(a, b):
+    for x, y in zip(a, b):
+        if json.dumps(x, sort_keys=True) != json.dumps(y, sort_keys=True):
+            return {"op_index": x[0], "sub": x[1], "alone": x[2], "after_other_family": y[2]}
+    if len(a) != len(b):
+        return {"op_index": None, "alone_ops": len(a), "after_other_family_ops": len(b)}
+    return None
+
+
+def chain_in_fresh_process(cases):
+    """[polluter, victim] executed in one fresh process -> victim outcomes"""
+    def task(cs):
+        for c in cs[:-1]:
+            outcomes_of_case(c)
+        return outcomes_of_case(cs[-1])
+    res, _ = run_pool([(task, (cases,))], 1)
+    return res[0]
+
+
+def replay_chain(prop, data, path):
+    cases = data["cases"]
+    fresh, _ = run_pool([(fresh_outcomes_task, (cases[-1],))], 1)
+    fresh = fresh[0]
+    dirty = chain_in_fresh_process(cases)
+    diff = first_outcome_diff(fresh["outcomes"], dirty["outcomes"])
+    if diff is None:
+        print(f"REPLAY property={prop} file={path}: no violation "
+              "(the victim family behaves the same alone and after the other family)")
+        return 0
+    print(f"REPLAY property={prop} class=cross-family-contamination REPRODUCED")
+    print(json.dumps(diff, indent=1)[:3000])
+    print(f"VIOLATION property={prop} replay={path}")
+    return 1
 
 
 if __name__ == "__main__":
